@@ -237,7 +237,7 @@ def check_case(case, stats=None):
                                     'expected': want}})
         if not case['sub']:
             viol.extend(_final_checks(case, snap, wid, items, phase=2))
-    for e in common.undeclared_errors(_Res()):
+    for e in common.undeclared_errors(_Res(), server=True):
         viol.append({'kind': 'undeclared-error',
                      'detail': {k: e.get(k) for k in
                                 ('type', 'msg', 'frame', 'where', 'label')}})
@@ -277,6 +277,11 @@ def check_case(case, stats=None):
 
 
 class _Res(object):
+    @property
+    def server_errors(self):
+        from mv import sim
+        return sim.W.server_errors
+
     @property
     def errors(self):
         from mv import sim
